@@ -35,7 +35,10 @@ func repoImpl() ref.Impl {
 }
 
 var c17Nums = []uint64{0, 1, 255, 256, 1 << 32, 1<<63 - 1, 1 << 63, 1<<64 - 1}
-var c17Strs = []string{"", "a", strings.Repeat("x", 31), strings.Repeat("x", 32), strings.Repeat("x", 33), strings.Repeat("y", 200), "дэном/ü", "a\x00b"}
+var c17Strs = []string{"", "a", strings.Repeat("x", 31), strings.Repeat("x", 32), strings.Repeat("x", 33), strings.Repeat("y", 200), "дэном/ü", "a\x00b",
+	// lengths around the longest legal denom, and strings that already look like a derived denom
+	strings.Repeat("d", 120), strings.Repeat("d", 121), strings.Repeat("d", 127) + "e", strings.Repeat("d", 127) + "f",
+	"l2/abc", "l2/" + strings.Repeat("0", 64)}
 
 func vectorsPath() string {
 	d := os.Getenv("VERIF_DIR")
